@@ -21,6 +21,10 @@ def step (st : DState) (line : String) : DState × String × String :=
       ({ st with tbl := (KV.nat kv "code", KV.bytes kv "data", KV.bytes kv "digest") :: st.tbl }, "skip", "")
     else if fam == "reset" then ({ tbl := [] }, "skip", "")
     else if fam == "open" then let r := famOpen kv; ({ st with sess := some r.1 }, r.2.1, r.2.2)
+    else if fam == "reopen" then
+      match st.sess with
+      | none => (st, "bad-op", "")
+      | some se => let r := famReopen se kv; ({ st with sess := some r.1 }, r.2.1, r.2.2)
     else if fam == "fcheck" then
       match st.sess with
       | none => (st, "bad-op", "")
